@@ -210,6 +210,35 @@ Theorem C20_rpc_paths_designate_same :
       resolve (caller_dir root here s_dot) (back_apply m cwd (mkenv root here) q) = resolve root q.
 Proof. split; [exact rpc_back_all_translate|]. split; [discriminate|exact rpc_paths_designate_same]. Qed.
 
+(* api.amend() remembers what it amended before (_AMEND_HISTORY, state of the step process) and drops repeated
+   requests before they reach the director.  The statements that compare a path set with the history or add it to
+   the history, and the frame of the set (after translate(): root-relative; before: as the step wrote it), are
+   generated from api.py.  All of them work on translated paths, hence: a request is dropped ONLY when an earlier
+   request of the same process designates the same file (from the step's directory root/HERE), and a repeated
+   request IS dropped.  For all roots, HERE, earlier requests and paths. *)
+Theorem C20_amend_history_frames : amend_frames_ok = true /\ amend_history_uses <> [].
+Proof. split; [exact amend_frames_ok_true|discriminate]. Qed.
+
+Theorem C20_amend_drops_only_same_file :
+  forall cwd root here earlier p, wf_root root = true ->
+    (amend_dropped cwd (mkenv root here) earlier p = true ->
+       exists p', In p' earlier /\
+         resolve (caller_dir root here s_dot) p' = resolve (caller_dir root here s_dot) p)
+    /\ (In p earlier -> amend_dropped cwd (mkenv root here) earlier p = true).
+Proof.
+  intros cwd root here earlier p Hr. split; [apply amend_drops_only_same_file; exact Hr|apply amend_drops_repeats].
+Qed.
+
+(* Non-vacuity, and why the frames matter: step in /r/proj/W (HERE = W); "p" was amended (recorded W/p); the later
+   request "W/p" names /r/proj/W/W/p, another file, and is not dropped - while its spelling equals the recorded
+   path of the first request, which is what a comparison of raw paths with the history would look at. *)
+Example C20_ex_amend_history :
+  amend_dropped [47] (mkenv [47;114;47;112;114;111;106] [87]) [[112]] [87;47;112] = false /\
+  amend_dropped [47] (mkenv [47;114;47;112;114;111;106] [87]) [[112]] [46;47;112] = true /\
+  amend_history [47] (mkenv [47;114;47;112;114;111;106] [87]) [[112]] = [[87;47;112]] /\
+  str_in [87;47;112] (amend_history [47] (mkenv [47;114;47;112;114;111;106] [87]) [[112]]) = true.
+Proof. vm_compute. repeat split; reflexivity. Qed.
+
 Theorem C20_target_call_sites_before_cd : targets_normalized_in_user_cwd = true /\ target_call_sites <> [].
 Proof. split; [exact target_flag_true|discriminate]. Qed.
 
